@@ -19,7 +19,7 @@ from typing import Callable
 
 class Node:
     __slots__ = ("sid", "parent", "shield", "cancelled", "deadline", "active", "kind",
-                 "cancel_cause", "entered_at", "fuzzy_until", "shield_at")  # fmt: skip
+                 "cancel_cause", "entered_at", "fuzzy_until", "shield_at", "cancelled_at")  # fmt: skip
 
     def __init__(self, sid: str, kind: str, shield: bool = False, deadline: float = math.inf):
         self.sid = sid
@@ -36,6 +36,7 @@ class Node:
         # decisions that read the flag synchronously accept both outcomes
         self.fuzzy_until: int = -1
         self.shield_at: int = -100  # cycle in which the shield was last switched on
+        self.cancelled_at: int = -100  # cycle in which the model saw the scope cancelled
 
 
 class Shadow:
@@ -79,6 +80,7 @@ class Shadow:
         self.stacks[tid].append(n)
         if n.deadline <= self.now()[2] and not n.cancelled:
             n.cancelled = True
+            n.cancelled_at = self.now()[1]
             n.cancel_cause = "deadline"
 
         self.touch()
@@ -94,6 +96,7 @@ class Shadow:
     def cancel(self, n: Node, cause: str = "explicit") -> None:
         if not n.cancelled:
             n.cancelled = True
+            n.cancelled_at = self.now()[1]
             n.cancel_cause = cause
             self.touch()
 
@@ -108,6 +111,7 @@ class Shadow:
         n.deadline = value
         if n.active and not n.cancelled and value <= self.now()[2]:
             n.cancelled = True
+            n.cancelled_at = self.now()[1]
             n.cancel_cause = "deadline"
 
         self.touch()
@@ -117,6 +121,7 @@ class Shadow:
         for n in self.nodes.values():
             if n.active and not n.cancelled and n.deadline <= vt:
                 n.cancelled = True
+                n.cancelled_at = self.now()[1]
                 n.cancel_cause = "deadline"
                 changed = True
 
